@@ -18,7 +18,10 @@ git apply "$M/patch.diff"
 with=$(CARGO_NET_OFFLINE=true cargo test --offline --test zz_demo -- --test-threads=1 2>&1 | grep -E "^test result|^error(\[|:)" | head -1)
 rm -f tests/zz_demo.rs
 base="skipped"
-if [ "${SKIP_BASELINE:-0}" != "1" ]; then base=$(MATHCAT_REPO=$WT /verif/tools/baseline_off.sh 2>&1 | head -1); fi
+# the lead's own baseline run of this very patch is remembered next to it (keyed by the patch's hash), so a later evaluation of more checks need not repeat it
+psum=$(sha1sum "$M/patch.diff" | cut -c1-12)
+if [ -f "$M/baseline.$psum.txt" ]; then base=$(cat "$M/baseline.$psum.txt");
+elif [ "${SKIP_BASELINE:-0}" != "1" ]; then base=$(MATHCAT_REPO=$WT /verif/tools/baseline_off.sh 2>&1 | head -1); echo "$base" > "$M/baseline.$psum.txt"; fi
 res=""
 for P in "$@"; do
   out=$(cd /verif && MATHCAT_REPO=$WT VERIF_SCRATCH=$SCR VERIF_SEED=${VERIF_SEED:-0} ./check $P --tier ${TIER:-quick} 2>&1)
